@@ -172,7 +172,7 @@ func (*regReporter).Process returns (err)
   let B := prLen
   let COL := r.config.Color
   ensures @sink [C17] BufStep(r.output) && err == nil
-  ensures @date [C02] prLen > B && PrintedStr(B, 0, FormatTime(ln.Time, r.config.DateFormat))
+  ensures @date [C02 C15] prLen > B && PrintedStr(B, 0, FormatTime(ln.Time, r.config.DateFormat))
   ensures @no-totals [C15] !r.config.Totals ==> regTB < 0
   ensures @totals-rows [C02 C07 C15] regTB >= 0 ==> B < regTB && regTB <= prLen && (forall k int :: {prArgs[k]} regTB <= k && k < prLen ==> OldTotalRow(k, COL, E0, N0))
   ensures @totals-sorted [C02 C05] regTB >= 0 ==> (forall k int :: {prArgs[k]} regTB <= k && k + 1 < prLen ==> cellat(string, payload(prArgs[k][0])) < cellat(string, payload(prArgs[k + 1][0])))
